@@ -79,7 +79,8 @@ def invariant_obligations(ctx, facts, rule=None):
     ctx.ob(R("MUTATORS"), "the Vec field is private", vis != "pub", fn="qualifiers::Qualifiers", detail="visibility of .%s: %s" % (fname, vis))
     # ------------------------------------------------------------ IDX
     ins_sites = [(k, bb, t) for (k, bb, p, item, t) in sites if item == "insert" and "Vec" in p]
-    ctx.ob(R("IDX"), "two insertion sites (Qualifiers::insert, VacantEntry::insert)", len(ins_sites) == 2, detail=str([(k) for k, _, _ in ins_sites]))
+    # (how many functions insert is not part of the invariant: each insertion site is checked on its own below)
+    ctx.ob(R("IDX"), "the qualifier Vec has at least one insertion site, all of them inspected", len(ins_sites) >= 1, detail=str([(k) for k, _, _ in ins_sites]))
     search_keys = [k for k, f in facts.fns.items() if f.get("name") == "search" and f.get("impl_self") == "qualifiers::Qualifiers"]
     if len(search_keys) != 1:
         raise AnchorError("Qualifiers::search not found")
@@ -205,7 +206,8 @@ def invariant_obligations(ctx, facts, rule=None):
             if "path" in t["callee"] and callee_name(t["callee"]) == SEARCH:
                 callers.setdefault(k, []).append(bb)
     names = sorted(facts.fns.get(k, {}).get("name", k) for k in callers)
-    ctx.ob(R("KEYCHECK"), "search is called only from get_index, entry and insert", names == ["entry", "get_index", "insert"], fn=SEARCH, detail=str(names))
+    # (which functions search is not part of the invariant: each call site is checked on its own below)
+    ctx.ob(R("KEYCHECK"), "the search has call sites, all of them inspected", len(names) >= 1, fn=SEARCH, detail=str(names))
     for k, bbs in callers.items():
         b = facts.body(k)
         for bb in bbs:
@@ -334,10 +336,12 @@ THOROUGH_FS = ["pt", "none", "serde"]
 
 RULES = [
     ("WITNESS", rule_witness, 0),
-    ("MUTATORS", rule_invariant, 40),
-    ("IDX", lambda ctx: None, 17),
-    ("KEYCTOR", lambda ctx: None, 6),
-    ("KEYCHECK", lambda ctx: None, 6),
+    # floors: what a minimal correct implementation still yields (one insertion site, one search call site ...), not the
+    # count on today's tree -- merging two insertion paths into one must not look like a lost anchor
+    ("MUTATORS", rule_invariant, 25),
+    ("IDX", lambda ctx: None, 12),
+    ("KEYCTOR", lambda ctx: None, 5),
+    ("KEYCHECK", lambda ctx: None, 3),
     ("CMP-LOWER", lambda ctx: None, 3),
     ("KEYREF", lambda ctx: None, 4),
     ("DUP", rule_dup, 2),
